@@ -201,21 +201,264 @@ theorem swap32_arith (v : Nat) :
   rw [or_shl_eq_add (k := 8) _ (by omega), or_shl_eq_add (k := 16) _ (by omega),
     or_shl_eq_add (k := 24) _ (by omega)]
 
+theorem bytesLE_length (n v : Nat) : (bytesLE n v).length = n := by
+  induction n generalizing v with
+  | zero => rfl
+  | succ n ih => simp [bytesLE, ih]
+
+theorem bytesLE_lt (n v : Nat) : ∀ b ∈ bytesLE n v, b < 256 := by
+  induction n generalizing v with
+  | zero => intro b hb; simp [bytesLE] at hb
+  | succ n ih =>
+    intro b hb
+    simp only [bytesLE, List.mem_cons] at hb
+    rcases hb with rfl | hb
+    · exact Nat.mod_lt _ (by decide)
+    · exact ih _ b hb
+
+theorem bytesLE_valLE (bs : List Nat) (h : ∀ b ∈ bs, b < 256) :
+    bytesLE bs.length (valLE bs) = bs := by
+  induction bs with
+  | nil => rfl
+  | cons b bs ih =>
+    have hb : b < 256 := h b (by simp)
+    have ih' := ih (fun x hx => h x (by simp [hx]))
+    simp only [List.length_cons, bytesLE, valLE]
+    have e1 : (b + 256 * valLE bs) % 256 = b := by omega
+    have e2 : (b + 256 * valLE bs) / 256 = valLE bs := by omega
+    rw [e1, e2, ih']
+
+theorem valLE_bytesLE (n v : Nat) (h : v < 256 ^ n) : valLE (bytesLE n v) = v := by
+  induction n generalizing v with
+  | zero => simp at h; simp [bytesLE, valLE, h]
+  | succ n ih =>
+    have : v / 256 < 256 ^ n := by
+      apply Nat.div_lt_of_lt_mul
+      rw [Nat.pow_succ, Nat.mul_comm] at h
+      exact h
+    simp only [bytesLE, valLE, ih _ this]
+    omega
+
+/-- the swap macros reverse the bytes of the value -/
+theorem swapOut_eq_reverse (n : Nat) (hn : n = 1 ∨ n = 2 ∨ n = 3 ∨ n = 4) (v : Nat)
+    (hv : v < 2 ^ (8 * n)) : swapOut (8 * n) v = valLE (bytesLE n v).reverse := by
+  rcases hn with rfl | rfl | rfl | rfl
+  · simp [swapOut, bytesLE, valLE] at hv ⊢; omega
+  · simp [swapOut, bytesLE, valLE, swap16_arith] at hv ⊢; omega
+  · simp [swapOut, bytesLE, valLE, swap24_arith, Nat.div_div_eq_div_mul] at hv ⊢; omega
+  · simp [swapOut, bytesLE, valLE, swap32_arith, Nat.div_div_eq_div_mul] at hv ⊢; omega
+
+theorem decode_encode (be : Bool) (n v : Nat) (h : v < 256 ^ n) : decode be (encode be n v) = v := by
+  cases be <;> simp [decode, encode, valLE_bytesLE n v h]
+
 /-- **byte order**: a pixel value `v` that the table holds byte-swapped exactly when the client's
 order differs from the machine's, stored by a typed store in machine order `h`, reads back as `v`
 in the client's order `c` (pixel sizes 1, 2, 3, 4 bytes). -/
 theorem decode_encode_swap (h c : Bool) (n : Nat) (hn : n = 1 ∨ n = 2 ∨ n = 3 ∨ n = 4) (v : Nat)
     (hv : v < 2 ^ (8 * n)) :
     decode c (encode h n (if c != h then swapOut (8 * n) v else v)) = v := by
-  rcases hn with rfl | rfl | rfl | rfl <;> cases h <;> cases c <;>
-    simp [decode, encode, bytesLE, valLE, swapOut, swap16_arith, swap24_arith, swap32_arith] at hv ⊢ <;>
+  have hv' : v < 256 ^ n := by
+    rw [show (256 : Nat) = 2 ^ 8 by decide, ← Nat.pow_mul]; exact hv
+  by_cases e : c = h
+  · subst e; simp [decode_encode c n v hv']
+  · have hne : (c != h) = true := by cases c <;> cases h <;> simp_all
+    rw [hne, if_pos rfl, swapOut_eq_reverse n hn v hv]
+    have hl : (bytesLE n v).reverse.length = n := by simp [bytesLE_length]
+    have hb : ∀ b ∈ (bytesLE n v).reverse, b < 256 := by
+      intro b hb; exact bytesLE_lt n v b (by simpa using hb)
+    have key := bytesLE_valLE _ hb
+    rw [hl] at key
+    cases h <;> cases c <;> simp_all [decode, encode, valLE_bytesLE n v hv']
+
+theorem swap16_or (a b : Nat) : swap16 (a ||| b) = swap16 a ||| swap16 b := by
+  simp only [swap16, Nat.and_or_distrib_right, Nat.shiftLeft_or_distrib, Nat.shiftRight_or_distrib]
+  ac_rfl
+
+theorem swap24_or (a b : Nat) : swap24 (a ||| b) = swap24 a ||| swap24 b := by
+  simp only [swap24, Nat.and_or_distrib_right, Nat.shiftLeft_or_distrib, Nat.shiftRight_or_distrib]
+  ac_rfl
+
+/-- byte `s/8` of `v` moved to bit position `t` -/
+def byteTo (v s t : Nat) : Nat := ((v >>> s) &&& 0xff) <<< t
+
+theorem byteTo_or (a b s t : Nat) : byteTo (a ||| b) s t = byteTo a s t ||| byteTo b s t := by
+  unfold byteTo
+  rw [Nat.shiftRight_or_distrib, Nat.and_or_distrib_right, Nat.shiftLeft_or_distrib]
+
+theorem swap32_as_byteTo (v : Nat) :
+    swap32 v = byteTo v 24 0 ||| byteTo v 16 8 ||| byteTo v 8 16 ||| byteTo v 0 24 := by
+  unfold swap32 byteTo
+  rw [Nat.shiftLeft_zero, Nat.shiftRight_zero]
+
+theorem swap32_or (a b : Nat) : swap32 (a ||| b) = swap32 a ||| swap32 b := by
+  rw [swap32_as_byteTo, swap32_as_byteTo, swap32_as_byteTo, byteTo_or, byteTo_or, byteTo_or, byteTo_or]
+  generalize byteTo a 24 0 = a0
+  generalize byteTo a 16 8 = a1
+  generalize byteTo a 8 16 = a2
+  generalize byteTo a 0 24 = a3
+  generalize byteTo b 24 0 = b0
+  generalize byteTo b 16 8 = b1
+  generalize byteTo b 8 16 = b2
+  generalize byteTo b 0 24 = b3
+  ac_rfl
+
+theorem swapOut_or (bpp a b : Nat) : swapOut bpp (a ||| b) = swapOut bpp a ||| swapOut bpp b := by
+  unfold swapOut
+  split
+  · exact swap16_or a b
+  · split
+    · exact swap32_or a b
+    · split
+      · exact swap24_or a b
+      · rfl
+
+/-! ## table entries of well-formed formats -/
+
+/-- the pixel the property demands: the three source components rescaled with rounding to
+nearest, placed at the client's shifts -/
+def specPixel (i o : PixelFormat) (p : Nat) : Nat :=
+  place o (scale (comp p i.redShift i.redMax) i.redMax o.redMax)
+          (scale (comp p i.greenShift i.greenMax) i.greenMax o.greenMax)
+          (scale (comp p i.blueShift i.blueMax) i.blueMax o.blueMax)
+
+section entries
+variable {i o : PixelFormat} {ir ig ib kr kg kb : Nat}
+
+theorem spec_red_lt (wi : WF i ir ig ib) (wo : WF o kr kg kb) (p : Nat) :
+    scale (comp p i.redShift i.redMax) i.redMax o.redMax < 2 ^ kr := by
+  rw [wo.rmax]
+  apply scale_lt_two_pow wi.max_pos.1
+  rw [wi.rmax]; exact comp_le _ _ _
+
+theorem spec_green_lt (wi : WF i ir ig ib) (wo : WF o kr kg kb) (p : Nat) :
+    scale (comp p i.greenShift i.greenMax) i.greenMax o.greenMax < 2 ^ kg := by
+  rw [wo.gmax]
+  apply scale_lt_two_pow wi.max_pos.2.1
+  rw [wi.gmax]; exact comp_le _ _ _
+
+theorem spec_blue_lt (wi : WF i ir ig ib) (wo : WF o kr kg kb) (p : Nat) :
+    scale (comp p i.blueShift i.blueMax) i.blueMax o.blueMax < 2 ^ kb := by
+  rw [wo.bmax]
+  apply scale_lt_two_pow wi.max_pos.2.2
+  rw [wi.bmax]; exact comp_le _ _ _
+
+theorem specPixel_lt (wi : WF i ir ig ib) (wo : WF o kr kg kb) (p : Nat) :
+    specPixel i o p < 2 ^ o.bpp :=
+  place_lt wo (spec_red_lt wi wo p) (spec_green_lt wi wo p) (spec_blue_lt wi wo p)
+
+/-- single table: the entry is the demanded pixel, byte-swapped iff the two byte orders differ
+(no truncation happens) -/
+theorem singleEntryTC_eq (wi : WF i ir ig ib) (wo : WF o kr kg kb) (p : Nat) :
+    singleEntryTC i o p =
+      if o.bigEndian != i.bigEndian then swapOut o.bpp (specPixel i o p) else specPixel i o p := by
+  have h := specPixel_lt wi wo p
+  unfold specPixel place at h
+  simp only [singleEntryTC, specPixel, place, Nat.mod_eq_of_lt h]
+
+theorem rgbEntry_eq {bpp inMax outMax s k c : Nat} (sw : Bool) (hk : 1 ≤ k)
+    (hs : scale c inMax outMax < 2 ^ k) (hfit : s + k ≤ bpp) (hb : bpp ≤ 32) :
+    rgbEntry bpp inMax outMax s sw c =
+      if sw then swapOut bpp (scale c inMax outMax <<< s) else scale c inMax outMax <<< s := by
+  have h1 : scale c inMax outMax < 2 ^ bpp :=
+    Nat.lt_of_lt_of_le hs (Nat.pow_le_pow_right (by decide) (by omega))
+  have h2 : scale c inMax outMax <<< s < 2 ^ bpp := shl_lt hs hfit
+  have h3 : s < 32 := by omega
+  simp only [rgbEntry, h3, if_true, Nat.mod_eq_of_lt h1, Nat.mod_eq_of_lt h2]
+
+/-- three tables: the OR of the three entries is the same pixel as the single table's -/
+theorem rgbLookup_eq (wi : WF i ir ig ib) (wo : WF o kr kg kb) (hb : o.bpp ≤ 32) (p : Nat) :
+    rgbLookup i o p =
+      if o.bigEndian != i.bigEndian then swapOut o.bpp (specPixel i o p) else specPixel i o p := by
+  unfold rgbLookup
+  simp only []
+  rw [rgbEntry_eq _ wo.kr_pos (spec_red_lt wi wo p) wo.rfit hb,
+    rgbEntry_eq _ wo.kg_pos (spec_green_lt wi wo p) wo.gfit hb,
+    rgbEntry_eq _ wo.kb_pos (spec_blue_lt wi wo p) wo.bfit hb]
+  cases (o.bigEndian != i.bigEndian)
+  · simp [specPixel, place]
+  · simp [specPixel, place, swapOut_or]
+
+end entries
+
+/-! ## the area walk -/
+
+theorem flatMap_congr' {α β : Type} {l : List α} {f g : α → List β} (h : ∀ a ∈ l, f a = g a) :
+    l.flatMap f = l.flatMap g := by
+  induction l with
+  | nil => rfl
+  | cons a l ih =>
+    rw [List.flatMap_cons, List.flatMap_cons, h a (by simp), ih (fun x hx => h x (by simp [hx]))]
+
+theorem pixLoop_eq (f : Nat → Nat) (inSize ip n : Nat) :
+    pixLoop f inSize ip n = (List.range n).map fun c => f (ip + c * inSize) := by
+  induction n generalizing ip with
+  | zero => rfl
+  | succ n ih =>
+    rw [pixLoop, ih, List.range_succ_eq_map, List.map_cons, List.map_map]
+    congr 1
+    · simp
+    · apply List.map_congr_left
+      intro c _
+      simp only [Function.comp, Nat.succ_eq_add_one, Nat.add_mul, Nat.one_mul]
+      congr 1; omega
+
+theorem rowLoop_eq (f : Nat → Nat) (inSize w step ip h : Nat) :
+    rowLoop f inSize w step ip h =
+      (List.range h).flatMap fun r => (List.range w).map fun c => f (ip + r * step + c * inSize) := by
+  induction h generalizing ip with
+  | zero => rfl
+  | succ h ih =>
+    rw [rowLoop, ih, pixLoop_eq, List.range_succ_eq_map, List.flatMap_cons, List.flatMap_map]
+    congr 1
+    · simp
+    · apply flatMap_congr'
+      intro r _
+      apply List.map_congr_left
+      intro c _
+      simp only [Nat.succ_eq_add_one, Nat.add_mul, Nat.one_mul]
+      congr 1; omega
+
+theorem copyRows_eq (mem : Nat → Nat) (lineBytes stride ip h : Nat) :
+    copyRows mem lineBytes stride ip h =
+      (List.range h).flatMap fun r => memBytes mem (ip + r * stride) lineBytes := by
+  induction h generalizing ip with
+  | zero => rfl
+  | succ h ih =>
+    rw [copyRows, ih, List.range_succ_eq_map, List.flatMap_cons, List.flatMap_map]
+    congr 1
+    · simp
+    · apply flatMap_congr'
+      intro r _
+      simp only [Nat.succ_eq_add_one, Nat.add_mul, Nat.one_mul]
+      congr 1; omega
+
+theorem pixLoop_length (f : Nat → Nat) (inSize ip n : Nat) : (pixLoop f inSize ip n).length = n := by
+  rw [pixLoop_eq]; simp
+
+theorem rowLoop_length (f : Nat → Nat) (inSize w step ip h : Nat) :
+    (rowLoop f inSize w step ip h).length = h * w := by
+  induction h generalizing ip with
+  | zero => simp [rowLoop]
+  | succ h ih => rw [rowLoop, List.length_append, pixLoop_length, ih, Nat.succ_mul]; omega
+
+theorem flatMap_encode_length (be : Bool) (n : Nat) (l : List Nat) :
+    (l.flatMap (encode be n)).length = l.length * n := by
+  induction l with
+  | nil => simp
+  | cons a l ih =>
+    rw [List.flatMap_cons, List.length_append, ih, List.length_cons, Nat.succ_mul]
+    have : (encode be n a).length = n := by
+      unfold encode; split <;> simp [bytesLE_length]
     omega
 
+theorem memBytes_congr {mem mem' : Nat → Nat} {off n : Nat}
+    (h : ∀ j, j < n → mem (off + j) = mem' (off + j)) : memBytes mem off n = memBytes mem' off n := by
+  unfold memBytes
+  apply List.map_congr_left
+  intro j hj
+  exact h j (List.mem_range.mp hj)
+
 theorem encode_length (be : Bool) (n v : Nat) : (encode be n v).length = n := by
-  have : ∀ n v, (bytesLE n v).length = n := by
-    intro n; induction n with
-    | zero => intro v; rfl
-    | succ n ih => intro v; simp [bytesLE, ih]
-  unfold encode; split <;> simp [this]
+  unfold encode; split <;> simp [bytesLE_length]
 
 end VncModel.Translate
